@@ -3,6 +3,7 @@ package props
 import (
 	"encoding/json"
 	"fmt"
+	"os"
 
 	"verif/sim/core"
 )
@@ -107,6 +108,10 @@ func l3Calibrate(s *c17l3Script, client int, res *core.Result) (int, string) {
 	res.Steps += o.Steps
 	res.Probes["calibrations"]++
 	if o.Inconcl != "" || o.Skip != "" || o.Crash != "" || !o.AEnded || o.NA == 0 {
+		if os.Getenv("VERIF_L3_DEBUG") != "" {
+			raw, _ := json.Marshal(s)
+			fmt.Fprintf(os.Stderr, "L3DEBUG calibration failed client=%d %s script=%s\n", client, o.Inconcl, raw)
+		}
 		return 0, fmt.Sprintf("calibration failed: inconcl=%q skip=%q crash=%q ended=%v n=%d", o.Inconcl, o.Skip, o.Crash, o.AEnded, o.NA)
 	}
 	l3Calib[key] = o.NA
@@ -131,6 +136,7 @@ func (c17l3) Execute(sc core.Script, keep bool) *core.Result {
 		n, why := l3Calibrate(s, 0, res)
 		if n == 0 {
 			res.Probes["inconclusive"]++
+			res.Unclaimed = append(res.Unclaimed, "L3 inconclusive: "+why)
 			log.Add("inconclusive: %s", why)
 			res.Fingerprint = "inconclusive"
 			return res
@@ -191,6 +197,7 @@ func (c17l3) Execute(sc core.Script, keep bool) *core.Result {
 	switch {
 	case o.Inconcl != "":
 		res.Probes["inconclusive"]++
+		res.Unclaimed = append(res.Unclaimed, "L3 inconclusive: "+o.Inconcl)
 		log.Add("inconclusive: %s", o.Inconcl)
 	case o.Skip != "":
 		log.Add("skip: %s", o.Skip)
